@@ -101,6 +101,22 @@ CHECKS = {
              'allowed by the duplicate-free semantics.',
         note='The raise+rollback of a duplicate result is the mechanism, '
              'not a violation; atomic transactions.'),
+    'C08': dict(
+        level='model_checking', design='3/C08',
+        technique='explicit-state model checking of the implementation: '
+                  'DFS over interleavings x policy parameter matrix x '
+                  'outcome sequences x early/late timer firings (virtual '
+                  'clock deviations); step oracles + reference model',
+        text='Retry (count 0..2 literal / expression / task-default, delay '
+             '0..2, break-on / continue-on), wait-before / wait-after, '
+             'timeout racing an asynchronous result, fail-on and '
+             'pause-before+resume are explored for every outcome sequence '
+             'and timer position; attempts <= count+1, delayed tasks do not '
+             'continue early, pause-before starts no action before resume, '
+             'terminal outcome allowed by the reference model (incl. timeout '
+             'race).',
+        note='Virtual clock (1 s), <= 2 early timer firings per run; legacy '
+             'scheduler.'),
     'C10': dict(
         level='model_checking', design='3/C10',
         technique='explicit-state model checking of the implementation: '
@@ -146,6 +162,22 @@ CHECKS = {
              'from the start.',
         note='Failed tasks without error handlers; reset=False left to '
              'with-items (C07).'),
+    'C15': dict(
+        level='model_checking', design='3/C15', engine='op-mc',
+        technique='exhaustive enumeration of setups x callers x every '
+                  'data-access operation (db API, REST routes, expression '
+                  'functions, engine paths) to depth 2 on the real code, '
+                  'against a 60-line visibility / mutability reference model',
+        text='11 resource types x scope x name collision x share status, '
+             'four callers (owner, other project, member, admin), 90 db_api '
+             'functions with argument variants, the v2 REST routes through '
+             'the real app, the expression functions under 5 contexts and '
+             'real engine runs; every result set, refusal, table diff and '
+             'new-row ownership is compared with the reference model; depth '
+             '2 repeats the alphabet after every distinct reached state.',
+        note='One resource per project and type; SQLite; keystone stubbed; '
+             'db-level breaches count only if reachable from a tenant '
+             'route.'),
     'C16': dict(
         level='model_checking', design='3/C16', engine='op-mc',
         technique='exhaustive enumeration of the controller tree x policy '
@@ -262,7 +294,7 @@ def main():
              'kind_free_text': 'the engine explorer driving the real '
                                'DefaultScheduler/LegacyScheduler loops'},
             {'name': 'op-mc', 'path': 'checks/c16.py',
-             'serves_properties': ['C16', 'C18'],
+             'serves_properties': ['C15', 'C16', 'C18'],
              'kind_free_text': 'exhaustive enumeration of operation / '
                                'configuration spaces over the real DB API '
                                'and WSGI app against reference models'},
